@@ -2,6 +2,7 @@ package props
 
 import (
 	"context"
+	"encoding/base64"
 	"fmt"
 	"net/url"
 	"strings"
@@ -50,10 +51,12 @@ func (e *Eng) actAuthorize() {
 	aud := e.drawAud("aud")
 	withRedirect := fosite.Arguments(scopes).Has("openid") || rapid.IntRange(0, 3).Draw(t, "withRedirect") != 0
 	granted := append([]string{}, scopes...)
+	declined := ""
 	if len(granted) > 1 && rapid.IntRange(0, 3).Draw(t, "partialConsent") == 0 {
 		// the user declines one non-openid scope
 		for i, s := range granted {
 			if s != "openid" {
+				declined = s
 				granted = append(granted[:i:i], granted[i+1:]...)
 				break
 			}
@@ -90,6 +93,10 @@ func (e *Eng) actAuthorize() {
 		flow = "implicit"
 	}
 	g := e.newGrant(client, flow, granted, aud, subject)
+	g.Extra["declined"] = declined
+	if declined != "" {
+		e.label("partial-consent")
+	}
 	if withRedirect {
 		g.Redirect = redirectURI
 	}
@@ -183,9 +190,17 @@ func (e *Eng) actRedeem() {
 	if badAuth {
 		auth.BasicPass = "wrong-secret"
 	}
+	reqForm := e.form(presenter, form)
+	if presenter == "P" && presenter != g.Client && rapid.Bool().Draw(t, "publicViaBasicNamingVictimInBody") {
+		// a public client identifies itself through the Basic header (empty password) and names the code's
+		// owner in the body: it is still the client of the header that is authenticated
+		auth = h.Auth{RawHeader: "Basic " + base64.StdEncoding.EncodeToString([]byte("P:"))}
+		reqForm.Set("client_id", g.Client)
+		e.label("redeem-public-basic-with-victim-client_id")
+	}
 	e.w.ResetCalls()
 	e.w.Record = true
-	tr := e.w.Token(e.form(presenter, form), auth, h.TokenOpts{})
+	tr := e.w.Token(reqForm, auth, h.TokenOpts{})
 	e.w.Record = false
 	if !tr.OK() {
 		for _, c := range e.w.Calls {
@@ -707,6 +722,17 @@ func (e *Eng) actEditClient() {
 	t := e.t
 	id := pick(t, []string{"A", "B"}, "client")
 	c := e.w.Mem.Clients[id].(*h.HClient)
+	if rapid.Bool().Draw(t, "replaceRecord") {
+		// an administrator's update replaces the registration record (a new object), it does not mutate the
+		// object that requests stored earlier may still point to
+		dc := *c.DefaultClient
+		oc := *c.DefaultOpenIDConnectClient
+		oc.DefaultClient = &dc
+		nc := &h.HClient{DefaultOpenIDConnectClient: &oc, ResponseModes: c.ResponseModes}
+		e.w.Mem.Clients[id] = nc
+		c = nc
+		e.label("editClient-replaces-record")
+	}
 	full := stdClient(id, false)
 	switch rapid.IntRange(0, 3).Draw(t, "edit") {
 	case 0: // restore
@@ -735,6 +761,7 @@ func (e *Eng) actEditClient() {
 		c.GrantTypes = n
 		e.logf("editClient %s drop refresh_token grant", id)
 	}
+	e.edits[id]++
 	e.step("editClient")
 	e.label("editClient")
 	e.invariant("C05/client-edit-changed-token-state")
